@@ -79,7 +79,7 @@ def ckOp (buffered : Bool) (op : String) (res : String) (ds dd : Nat) (dgs : Lis
   if res == "blocked" then some ⟨"C13", "a socket sink call did not return (blocked for 3 s on a socket whose peer keeps reading)"⟩ else
   if buffered && (op.startsWith "e" || op.startsWith "g") && res.startsWith "ok" &&
       res ≠ s!"ok{(if op.startsWith "e" then (unhex (op.drop 1).toString).length else (op.drop 1).toString.toNat?.getD 0)}" then
-    some ⟨"C06+C05+C13", "a buffered emit acknowledged a byte count other than the metric's length (a truncated or partial send)"⟩ else
+    some ⟨"C06+C05+C13+C07", "a buffered emit acknowledged a byte count other than the metric's length (a truncated or partial send)"⟩ else
   if buffered && res.startsWith "ok" && dd > 0 then
     some ⟨"C06+C07+C12", "the call returned Ok although a send attempted during it was refused by the socket"⟩ else
   if !buffered && (op.startsWith "e" || op.startsWith "g") then
